@@ -186,13 +186,36 @@ namespace FaxVerif.Gen
 open FaxVerif.Cpp FaxVerif.Linq
 variable {D : Type}
 
-/-- what the theorems assume of a backend record (ATLAS and CMS AOD satisfy it; miniAOD's token
-idiom is tied by text and differential execution only) -/
+/-- what the theorems assume of a backend record whatever its retrieval idiom (ATLAS, CMS AOD and
+CMS miniAOD satisfy it): the variable holding a collection is not a `std::vector` and not of an
+arithmetic type (its declaration neither creates an empty vector nor converts what is assigned),
+and `result` is declared without initialiser or with `0`. -/
+structure BackendBase (B : Backend) : Prop where
+  handleNotVec : ∀ t, isVecType (B.handleTy t) = false
+  handlePlain : ∀ t, B.handleTy t ≠ "double" ∧ B.handleTy t ≠ "float" ∧ B.handleTy t ≠ "int" ∧ B.handleTy t ≠ "bool"
+  resultInit : B.resultInit = none ∨ B.resultInit = some (.int 0)
+
+/-- a backend that retrieves by bank name (ATLAS, CMS AOD): `BackendBase` and not the token idiom.
+Statements about code that is run WITHOUT a token table (an arbitrary `Ctx`, or a package whose
+`tokens` list is empty) need this; the end-to-end theorems about `compile` need `BackendBase` only,
+because `compile` emits the token table itself. -/
 structure BackendOK (B : Backend) : Prop where
   notToken : B.how ≠ "token"
   handleNotVec : ∀ t, isVecType (B.handleTy t) = false
   handlePlain : ∀ t, B.handleTy t ≠ "double" ∧ B.handleTy t ≠ "float" ∧ B.handleTy t ≠ "int" ∧ B.handleTy t ≠ "bool"
   resultInit : B.resultInit = none ∨ B.resultInit = some (.int 0)
+
+theorem BackendOK.base {B : Backend} (h : BackendOK B) : BackendBase B := ⟨h.handleNotVec, h.handlePlain, h.resultInit⟩
+
+/-- **what a retrieval by token needs**: the token the chain compiled at supply position `n` uses
+(`nm (n + 2)`) was initialised, in the run's token table, with the container type and the bank of
+that chain. Vacuous for the backends that retrieve by bank name. `compile` emits exactly such a
+table (`tokCols_eventRows` in Gen/TokenTable.lean, `tokChain_elemRows` in Gen/ElemRowsCorrect.lean). -/
+def TokChain (B : Backend) (nm : Nat → String) (C : Ctx D) (c : Chain) (n : Nat) : Prop :=
+  B.how = "token" → C.tokenBank (nm (n + 2)) = some ((B.collType c.coll).getD "?", c.bank)
+
+theorem tokChain_of_notToken {B : Backend} (h : B.how ≠ "token") (nm : Nat → String) (C : Ctx D) (c : Chain) (n : Nat) :
+    TokChain B nm C c n := fun e => absurd e h
 
 theorem castTo_plain (N : Num D) (ty : String) (v : Val D)
     (h : ty ≠ "double" ∧ ty ≠ "float" ∧ ty ≠ "int" ∧ ty ≠ "bool") : castTo N ty v = .ok v := by
@@ -207,10 +230,10 @@ theorem compChain_next (B : Backend) (nm : Nat → String) (c : Chain) (n : Nat)
   exact chainBody_next_ge nm B.elemPtr _ c.steps (n + 3) K
 
 /-- **retrieval + loop** for one chain, with an abstract continuation. -/
-theorem compChain_correct {β : Type} (C : Ctx D) (QC : QCtx D) (hN : QC.N = C.N)
-    (B : Backend) (hB : BackendOK B) (nm : Nat → String)
+theorem compChain_correct_tok {β : Type} (C : Ctx D) (QC : QCtx D) (hN : QC.N = C.N)
+    (B : Backend) (hB : BackendBase B) (nm : Nat → String)
     (hinj : ∀ i j, nm i = nm j → i = j) (hres : ∀ j, nm j ≠ "result")
-    (c : Chain) (n : Nat) (K : CExpr → Option Ty → List Stmt)
+    (c : Chain) (n : Nat) (htok : TokChain B nm C c n) (K : CExpr → Option Ty → List Stmt)
     (cty : String) (l ws : List (Val D))
     (hcoll : B.collType c.coll = some cty) (hfind : C.ev.find c.bank = some (cty, .vec l))
     (hwt : wtSteps none c.steps = true) (hmt : ∀ v ∈ l, MethTyped v (methsSteps c.steps))
@@ -235,17 +258,22 @@ theorem compChain_correct {β : Type} (C : Ctx D) (QC : QCtx D) (hN : QC.N = C.N
   have hblock : exec C (.block [.decl (B.handleTy cty) "result" B.resultInit,
         .retrieve B.how cty "result" (if B.how = "token" then .opaque "" else .str c.bank) (if B.how = "token" then nm (n + 2) else ""),
         .set (nm n) (.var "result")]) s = .ok ⟨σ2, s.rows⟩ := by
-    have hreq : ∀ σ : Env D, retrReq C σ B.how cty (.str c.bank) "" = .ok (.vec l) := by
+    have hreq : ∀ σ : Env D, retrReq C σ B.how cty (if B.how = "token" then .opaque "" else .str c.bank)
+        (if B.how = "token" then nm (n + 2) else "") = .ok (.vec l) := by
       intro σ
-      simp [retrReq, hB.notToken, evalE, hfind]
+      by_cases ht : B.how = "token"
+      · have := htok ht
+        rw [hcoll] at this
+        simp [retrReq, ht, this, hfind]
+      · simp [retrReq, ht, evalE, hfind]
     have hxr : nm n ≠ "result" := hres n
     rcases hB.resultInit with hi | hi
-    · simp only [exec, execs, hi, hB.handleNotVec, hB.notToken, if_false, σ2]
+    · simp only [exec, execs, hi, hB.handleNotVec, σ2]
       simp [Env.declare, Env.set, hreq, evalE, hxr, hx]
       cases hsx : s.env (nm n) with
       | none => rw [hsx] at hx; simp at hx
       | some _ => simp
-    · simp only [exec, execs, hi, hB.notToken, if_false, σ2, evalE, castTo_plain C.N _ _ (hB.handlePlain cty)]
+    · simp only [exec, execs, hi, σ2, evalE, castTo_plain C.N _ _ (hB.handlePlain cty)]
       simp [Env.set, hreq, evalE, hxr, hx]
       cases hsx : s.env (nm n) with
       | none => rw [hsx] at hx; simp at hx
@@ -272,5 +300,62 @@ theorem compChain_correct {β : Type} (C : Ctx D) (QC : QCtx D) (hN : QC.N = C.N
   rw [hblock]
   simp only [exec, hcoll']
   rw [hit]
+
+/-- **retrieval + loop** for one chain on a backend that retrieves by bank name. -/
+theorem compChain_correct {β : Type} (C : Ctx D) (QC : QCtx D) (hN : QC.N = C.N)
+    (B : Backend) (hB : BackendOK B) (nm : Nat → String)
+    (hinj : ∀ i j, nm i = nm j → i = j) (hres : ∀ j, nm j ≠ "result")
+    (c : Chain) (n : Nat) (K : CExpr → Option Ty → List Stmt)
+    (cty : String) (l ws : List (Val D))
+    (hcoll : B.collType c.coll = some cty) (hfind : C.ev.find c.bank = some (cty, .vec l))
+    (hwt : wtSteps none c.steps = true) (hmt : ∀ v ∈ l, MethTyped v (methsSteps c.steps))
+    (P : St D → β → Prop) (g : β → Val D → Except Fault β) (Q : Val D → Prop) (hQ : ∀ v ∈ l, Q v)
+    (hstable : ∀ (s s' : St D) b, P s b → s'.rows = s.rows →
+        (∀ y, ¬ Touch nm n (compChain B nm c n K).next y → s'.env y = s.env y) → P s' b)
+    (hK : ∀ (s : St D) b b' w (v : Val D), P s b → g b w = .ok b' →
+        evalE C.N s.env (stepConds B.elemPtr (.var (nm (n + 1))) none c.steps).2.1 = .ok w →
+        (∀ t, (stepConds B.elemPtr (.var (nm (n + 1))) none c.steps).2.2 = some t → HasTy w t) →
+        ((stepConds B.elemPtr (.var (nm (n + 1))) none c.steps).2.2 = none → w = v ∧ Q v) →
+        ∃ s', execs C (K (stepConds B.elemPtr (.var (nm (n + 1))) none c.steps).2.1
+                          (stepConds B.elemPtr (.var (nm (n + 1))) none c.steps).2.2) s = .ok s' ∧ P s' b')
+    (s : St D) (b b' : β) (hx : (s.env (nm n)).isSome = true)
+    (hel : elemsSem QC c.steps l = .ok ws) (hfold : foldG g ws b = .ok b') (hP : P s b) :
+    ∃ s', execs C (compChain B nm c n K).stmts s = .ok s' ∧ P s' b' :=
+  compChain_correct_tok C QC hN B hB.base nm hinj hres c n (tokChain_of_notToken hB.notToken nm C c n) K cty l ws
+    hcoll hfind hwt hmt P g Q hQ hstable hK s b b' hx hel hfold hP
+
+/-! ## the token table (`Package.tokens`) -/
+
+/-- looking a token up in a table whose token names are pairwise distinct finds its own entry -/
+theorem tokenBank_of_mem (C : Ctx D) (hnd : (C.tokens.map (·.1)).Nodup) :
+    ∀ t ∈ C.tokens, C.tokenBank t.1 = some t.2 := by
+  intro t ht
+  simp only [Ctx.tokenBank]
+  generalize C.tokens = l at hnd ht
+  induction l with
+  | nil => simp at ht
+  | cons hd tl ih =>
+    obtain ⟨t0, ty0, b0⟩ := hd
+    simp only [List.map_cons, List.nodup_cons] at hnd
+    simp only [Ctx.tokenBank.go]
+    rcases List.mem_cons.1 ht with heq | hm
+    · subst heq; simp
+    · have hne : t0 ≠ t.1 := fun e => hnd.1 (List.mem_map.2 ⟨t, hm, e.symm⟩)
+      simp only [hne, if_false]
+      exact ih hnd.2 hm
+
+/-- the token-table entry of the chain compiled at supply position `n` -/
+def chainToks (B : Backend) (nm : Nat → String) (c : Chain) (n : Nat) : List (String × String × String) :=
+  [(nm (n + 2), (B.collType c.coll).getD "?", c.bank)]
+
+/-- `banksOf` over the statements of one chain (token backend): one entry, the chain's bank consumed -/
+theorem banksOf_chain (B : Backend) (ht : B.how = "token") (nm : Nat → String) (c : Chain) (n : Nat)
+    (K : CExpr → Option Ty → List Stmt) (rest : List Stmt) (bs : List String) :
+    banksOf B ((compChain B nm c n K).stmts ++ rest) (c.bank :: bs) = chainToks B nm c n ++ banksOf B rest bs := by
+  simp [compChain, ht, banksOf, chainToks]
+
+theorem banksOf_ite (B : Backend) (cnd : CExpr) (t e rest : List Stmt) (bs : List String) :
+    banksOf B (.ite cnd t e :: rest) bs = banksOf B rest bs := by
+  simp [banksOf]
 
 end FaxVerif.Gen
